@@ -31,7 +31,7 @@ F18Frame(s) ==
     /\ (KTrigIDs(s) \cap s.failedIDs # {} \/ s.fr.late # {})
 F18Clauses == {"NothingAfterTerminal", "NotifSeqOK", "TerminalFrozen", "HistAgreesWithRecord",
                "SiblingsFrozen:rpc", "SiblingsFrozen:event", "NoLateEffects:pub", "FanOutFailsOnce",
-               "TriggerAckLast:pub", "HistoryWellFormed"}
+               "TriggerAckLast:pub", "HistoryWellFormed", "RecordShape"}
 
 (* ---- F19: the error of a fan-out is caught (Catch on the Parallel/Map state) while sibling
         branches are still outstanding: they are not cancelled, their late results are
